@@ -1,7 +1,7 @@
 (* GENERATED on every run by harness/cmd/anchors from the Go sources of the repository under test.
    Do not edit: the theorems of Anchors/Tie*.v are re-checked against this text. *)
 From Coq Require Import ZArith NArith List String.
-From Verif Require Import MiniGo.Syntax MiniGo.Recipe.
+From Verif Require Import MiniGo.Syntax MiniGo.Slice MiniGo.Recipe.
 Import ListNotations.
 Open Scope string_scope.
 
@@ -53,6 +53,123 @@ Definition go_modbus_RtuCrc : func := {| f_name := "modbus.RtuCrc"; f_slices := 
  SAssign "crc" (EBin OXor (TU 16) (EVar "crc") (EConst 40961%Z))]
  [SAssign "crc" (EBin OShr (TU 16) (EVar "crc") (EConst 1%Z))]]];
  SReturn (EBin OOr (TU 16) (EBin OShr (TU 16) (EVar "crc") (EConst 8%Z)) (EBin OShl (TU 16) (EVar "crc") (EConst 8%Z)))] |}.
+Definition go_modbus_PutUint16Array : sfunc := {| sf_name := "modbus.PutUint16Array"; sf_params := [("value", (TU 16))]; sf_body :=
+ [TMake "data" (TU 8) (XBin OMul (TS 64) (XConst 2%Z) (XLen "value"));
+ TRangeIV "i" "v" (TU 16) "value"
+ [TPutBE 16%Z "data" (XBin OMul (TS 64) (XVar "i") (XConst 2%Z)) (XVar "v")];
+ TReturn "data"] |}.
+Definition go_modbus_Uint16Array : sfunc := {| sf_name := "modbus.Uint16Array"; sf_params := [("data", (TU 8))]; sf_body :=
+ [TMake "ret" (TU 16) (XDiv (TS 64) (XLen "data") (XConst 2%Z));
+ TRangeI "i" "ret"
+ [TStore "ret" (XVar "i") (XGetBE 16%Z "data" (XBin OMul (TS 64) (XVar "i") (XConst 2%Z)) (Some (XBin OAdd (TS 64) (XBin OMul (TS 64) (XVar "i") (XConst 2%Z)) (XConst 2%Z))))];
+ TReturn "ret"] |}.
+Definition go_modbus_RegsToInt16 : sfunc := {| sf_name := "modbus.RegsToInt16"; sf_params := [("in", (TU 16))]; sf_body :=
+ [TMake "ret" (TS 16) (XLen "in");
+ TRangeI "i" "in"
+ [TStore "ret" (XVar "i") (XConv (TS 16) (XIndex "in" (XVar "i")))];
+ TReturn "ret"] |}.
+Definition go_modbus_RegsToUint32 : sfunc := {| sf_name := "modbus.RegsToUint32"; sf_params := [("in", (TU 16))]; sf_body :=
+ [TDecl "count" (TS 64) (XDiv (TS 64) (XLen "in") (XConst 2%Z));
+ TMake "ret" (TU 32) (XVar "count");
+ TRangeI "i" "ret"
+ [TMake "buf" (TU 8) (XConst 4%Z);
+ TPutBE 16%Z "buf" (XConst 0%Z) (XIndex "in" (XBin OMul (TS 64) (XVar "i") (XConst 2%Z)));
+ TPutBE 16%Z "buf" (XConst 2%Z) (XIndex "in" (XBin OAdd (TS 64) (XBin OMul (TS 64) (XVar "i") (XConst 2%Z)) (XConst 1%Z)));
+ TStore "ret" (XVar "i") (XGetBE 32%Z "buf" (XConst 0%Z) None)];
+ TReturn "ret"] |}.
+Definition go_modbus_RegsToUint32SwapWords : sfunc := {| sf_name := "modbus.RegsToUint32SwapWords"; sf_params := [("in", (TU 16))]; sf_body :=
+ [TDecl "count" (TS 64) (XDiv (TS 64) (XLen "in") (XConst 2%Z));
+ TMake "ret" (TU 32) (XVar "count");
+ TRangeI "i" "ret"
+ [TMake "buf" (TU 8) (XConst 4%Z);
+ TPutBE 16%Z "buf" (XConst 2%Z) (XIndex "in" (XBin OMul (TS 64) (XVar "i") (XConst 2%Z)));
+ TPutBE 16%Z "buf" (XConst 0%Z) (XIndex "in" (XBin OAdd (TS 64) (XBin OMul (TS 64) (XVar "i") (XConst 2%Z)) (XConst 1%Z)));
+ TStore "ret" (XVar "i") (XGetBE 32%Z "buf" (XConst 0%Z) None)];
+ TReturn "ret"] |}.
+Definition go_modbus_Uint32ToRegs : sfunc := {| sf_name := "modbus.Uint32ToRegs"; sf_params := [("in", (TU 32))]; sf_body :=
+ [TMake "ret" (TU 16) (XBin OMul (TS 64) (XLen "in") (XConst 2%Z));
+ TRangeIV "i" "v" (TU 32) "in"
+ [TMake "buf" (TU 8) (XConst 4%Z);
+ TPutBE 32%Z "buf" (XConst 0%Z) (XVar "v");
+ TStore "ret" (XBin OMul (TS 64) (XVar "i") (XConst 2%Z)) (XGetBE 16%Z "buf" (XConst 0%Z) None);
+ TStore "ret" (XBin OAdd (TS 64) (XBin OMul (TS 64) (XVar "i") (XConst 2%Z)) (XConst 1%Z)) (XGetBE 16%Z "buf" (XConst 2%Z) None)];
+ TReturn "ret"] |}.
+Definition go_modbus_Uint32ToRegsSwapRegs : sfunc := {| sf_name := "modbus.Uint32ToRegsSwapRegs"; sf_params := [("in", (TU 32))]; sf_body :=
+ [TMake "ret" (TU 16) (XBin OMul (TS 64) (XLen "in") (XConst 2%Z));
+ TRangeIV "i" "v" (TU 32) "in"
+ [TMake "buf" (TU 8) (XConst 4%Z);
+ TPutBE 32%Z "buf" (XConst 0%Z) (XVar "v");
+ TStore "ret" (XBin OMul (TS 64) (XVar "i") (XConst 2%Z)) (XGetBE 16%Z "buf" (XConst 2%Z) None);
+ TStore "ret" (XBin OAdd (TS 64) (XBin OMul (TS 64) (XVar "i") (XConst 2%Z)) (XConst 1%Z)) (XGetBE 16%Z "buf" (XConst 0%Z) None)];
+ TReturn "ret"] |}.
+Definition go_modbus_RegsToInt32 : sfunc := {| sf_name := "modbus.RegsToInt32"; sf_params := [("in", (TU 16))]; sf_body :=
+ [TDecl "count" (TS 64) (XDiv (TS 64) (XLen "in") (XConst 2%Z));
+ TMake "ret" (TS 32) (XVar "count");
+ TRangeI "i" "ret"
+ [TMake "buf" (TU 8) (XConst 4%Z);
+ TPutBE 16%Z "buf" (XConst 0%Z) (XIndex "in" (XBin OMul (TS 64) (XVar "i") (XConst 2%Z)));
+ TPutBE 16%Z "buf" (XConst 2%Z) (XIndex "in" (XBin OAdd (TS 64) (XBin OMul (TS 64) (XVar "i") (XConst 2%Z)) (XConst 1%Z)));
+ TStore "ret" (XVar "i") (XConv (TS 32) (XGetBE 32%Z "buf" (XConst 0%Z) None))];
+ TReturn "ret"] |}.
+Definition go_modbus_RegsToInt32SwapWords : sfunc := {| sf_name := "modbus.RegsToInt32SwapWords"; sf_params := [("in", (TU 16))]; sf_body :=
+ [TDecl "count" (TS 64) (XDiv (TS 64) (XLen "in") (XConst 2%Z));
+ TMake "ret" (TS 32) (XVar "count");
+ TRangeI "i" "ret"
+ [TMake "buf" (TU 8) (XConst 4%Z);
+ TPutBE 16%Z "buf" (XConst 2%Z) (XIndex "in" (XBin OMul (TS 64) (XVar "i") (XConst 2%Z)));
+ TPutBE 16%Z "buf" (XConst 0%Z) (XIndex "in" (XBin OAdd (TS 64) (XBin OMul (TS 64) (XVar "i") (XConst 2%Z)) (XConst 1%Z)));
+ TStore "ret" (XVar "i") (XConv (TS 32) (XGetBE 32%Z "buf" (XConst 0%Z) None))];
+ TReturn "ret"] |}.
+Definition go_modbus_Int32ToRegs : sfunc := {| sf_name := "modbus.Int32ToRegs"; sf_params := [("in", (TS 32))]; sf_body :=
+ [TMake "ret" (TU 16) (XBin OMul (TS 64) (XLen "in") (XConst 2%Z));
+ TRangeIV "i" "v" (TS 32) "in"
+ [TMake "buf" (TU 8) (XConst 4%Z);
+ TPutBE 32%Z "buf" (XConst 0%Z) (XConv (TU 32) (XVar "v"));
+ TStore "ret" (XBin OMul (TS 64) (XVar "i") (XConst 2%Z)) (XGetBE 16%Z "buf" (XConst 0%Z) None);
+ TStore "ret" (XBin OAdd (TS 64) (XBin OMul (TS 64) (XVar "i") (XConst 2%Z)) (XConst 1%Z)) (XGetBE 16%Z "buf" (XConst 2%Z) None)];
+ TReturn "ret"] |}.
+Definition go_modbus_Int32ToRegsSwapWords : sfunc := {| sf_name := "modbus.Int32ToRegsSwapWords"; sf_params := [("in", (TS 32))]; sf_body :=
+ [TMake "ret" (TU 16) (XBin OMul (TS 64) (XLen "in") (XConst 2%Z));
+ TRangeIV "i" "v" (TS 32) "in"
+ [TMake "buf" (TU 8) (XConst 4%Z);
+ TPutBE 32%Z "buf" (XConst 0%Z) (XConv (TU 32) (XVar "v"));
+ TStore "ret" (XBin OMul (TS 64) (XVar "i") (XConst 2%Z)) (XGetBE 16%Z "buf" (XConst 2%Z) None);
+ TStore "ret" (XBin OAdd (TS 64) (XBin OMul (TS 64) (XVar "i") (XConst 2%Z)) (XConst 1%Z)) (XGetBE 16%Z "buf" (XConst 0%Z) None)];
+ TReturn "ret"] |}.
+Definition go_modbus_RegsToFloat32 : sfunc := {| sf_name := "modbus.RegsToFloat32"; sf_params := [("in", (TU 16))]; sf_body :=
+ [TDecl "count" (TS 64) (XDiv (TS 64) (XLen "in") (XConst 2%Z));
+ TMake "ret" (TU 32) (XVar "count");
+ TRangeI "i" "ret"
+ [TMake "buf" (TU 8) (XConst 4%Z);
+ TPutBE 16%Z "buf" (XConst 0%Z) (XIndex "in" (XBin OMul (TS 64) (XVar "i") (XConst 2%Z)));
+ TPutBE 16%Z "buf" (XConst 2%Z) (XIndex "in" (XBin OAdd (TS 64) (XBin OMul (TS 64) (XVar "i") (XConst 2%Z)) (XConst 1%Z)));
+ TStore "ret" (XVar "i") (XBits (XGetBE 32%Z "buf" (XConst 0%Z) None))];
+ TReturn "ret"] |}.
+Definition go_modbus_RegsToFloat32SwapWords : sfunc := {| sf_name := "modbus.RegsToFloat32SwapWords"; sf_params := [("in", (TU 16))]; sf_body :=
+ [TDecl "count" (TS 64) (XDiv (TS 64) (XLen "in") (XConst 2%Z));
+ TMake "ret" (TU 32) (XVar "count");
+ TRangeI "i" "ret"
+ [TMake "buf" (TU 8) (XConst 4%Z);
+ TPutBE 16%Z "buf" (XConst 2%Z) (XIndex "in" (XBin OMul (TS 64) (XVar "i") (XConst 2%Z)));
+ TPutBE 16%Z "buf" (XConst 0%Z) (XIndex "in" (XBin OAdd (TS 64) (XBin OMul (TS 64) (XVar "i") (XConst 2%Z)) (XConst 1%Z)));
+ TStore "ret" (XVar "i") (XBits (XGetBE 32%Z "buf" (XConst 0%Z) None))];
+ TReturn "ret"] |}.
+Definition go_modbus_Float32ToRegs : sfunc := {| sf_name := "modbus.Float32ToRegs"; sf_params := [("in", (TU 32))]; sf_body :=
+ [TMake "ret" (TU 16) (XBin OMul (TS 64) (XLen "in") (XConst 2%Z));
+ TRangeIV "i" "v" (TU 32) "in"
+ [TMake "buf" (TU 8) (XConst 4%Z);
+ TPutBE 32%Z "buf" (XConst 0%Z) (XBits (XVar "v"));
+ TStore "ret" (XBin OMul (TS 64) (XVar "i") (XConst 2%Z)) (XGetBE 16%Z "buf" (XConst 0%Z) None);
+ TStore "ret" (XBin OAdd (TS 64) (XBin OMul (TS 64) (XVar "i") (XConst 2%Z)) (XConst 1%Z)) (XGetBE 16%Z "buf" (XConst 2%Z) None)];
+ TReturn "ret"] |}.
+Definition go_modbus_Float32ToRegsSwapWords : sfunc := {| sf_name := "modbus.Float32ToRegsSwapWords"; sf_params := [("in", (TU 32))]; sf_body :=
+ [TMake "ret" (TU 16) (XBin OMul (TS 64) (XLen "in") (XConst 2%Z));
+ TRangeIV "i" "v" (TU 32) "in"
+ [TMake "buf" (TU 8) (XConst 4%Z);
+ TPutBE 32%Z "buf" (XConst 0%Z) (XBits (XVar "v"));
+ TStore "ret" (XBin OMul (TS 64) (XVar "i") (XConst 2%Z)) (XGetBE 16%Z "buf" (XConst 2%Z) None);
+ TStore "ret" (XBin OAdd (TS 64) (XBin OMul (TS 64) (XVar "i") (XConst 2%Z)) (XConst 1%Z)) (XGetBE 16%Z "buf" (XConst 0%Z) None)];
+ TReturn "ret"] |}.
 
 (* ---------- data ---------- *)
 Definition go_data_NodeTypeAction : list N := [97; 99; 116; 105; 111; 110]%N.
